@@ -56,6 +56,10 @@ fn build_pool(rng: &mut Rng, workdir: &str, root: &str, n: usize) -> Vec<gen_pp:
         pool.push(c);
     }
     for (i, t) in sensitive_texts().iter().enumerate() { pool.push(calls::text_case(&format!("s{}", i), t)); }
+    // two long texts that stay inside `begin_keywords regions of different standards (`logic` an identifier in one, a keyword in the other)
+    let kw_a: String = (0..40).map(|i| format!("`begin_keywords \"1364-2001\"\nmodule a{} (input logic, output reg q); assign q = logic; endmodule\n`end_keywords\n", i)).collect();
+    let kw_b: String = (0..40).map(|i| format!("`begin_keywords \"1800-2005\"\nmodule b{} (input logic d, output logic q); assign q = d; endmodule\n`end_keywords\n", i)).collect();
+    pool.push(calls::text_case("kwa", &kw_a)); pool.push(calls::text_case("kwb", &kw_b));
     for i in 0..n {
         pool.push(if i % 2 == 0 { gen_pp::gen_case(rng, 1000 + i, false) } else { let b = rng.pick(&corp); calls::text_case(&format!("k{}", i), &b.text) });
     }
@@ -130,7 +134,11 @@ pub fn main_c19(args: &[String]) {
         let nthreads = [2usize, 8, 32][round % 3];
         let per = if thorough { 12 } else { 6 };
         let shared = random_call(&mut rng, &pool);
-        let lists: Vec<Vec<Call>> = (0..nthreads).map(|_| (0..per).map(|k| if k % 3 == 0 { shared.clone() } else { random_call(&mut rng, &pool) }).collect()).collect();
+        // k % 3 == 1: threads with an even index work inside `begin_keywords regions of one standard, threads with an odd index inside regions of
+        // another one (state derived from the per-thread version stack must not be shared)
+        let np = polluting_texts().len(); let ns = sensitive_texts().len();
+        let lists: Vec<Vec<Call>> = (0..nthreads).map(|ti| (0..per).map(|k| if k % 3 == 0 { shared.clone() } else if k % 3 == 1 && round % 2 == 0 {
+            Call { entry: Entry::ParseSvStr, case: pool[np + ns + (ti % 2)].clone(), incomplete: false, strip: false, ignore: false } } else { random_call(&mut rng, &pool) }).collect()).collect();
         // sequential reference
         let reference: Vec<Vec<String>> = lists.iter().map(|l| l.iter().map(fresh).collect()).collect();
         let barrier = Arc::new(Barrier::new(nthreads));
